@@ -382,3 +382,63 @@ Definition run_xfers (c : list (N * N * N * N) * list (N * nat * nat))
   let '(tr, st) := recv_trace rstate0
                      (map (fun a => let '(peer, ti, di) := a in (peer, nth di (nth ti dgs []) [])) arr) in
   (tr, map (fun e => (fst e, olen (snd e), digest (snd e))) (r_queue st), show_frags (r_frags st)).
+
+(** * The pacing queue of one conversation ([TxSendWait._update_send])
+
+    Two lanes of pending datagrams: the priority lane (non-transfer messages:
+    polling, ECN feedback, PMTUD) and the paced lane (the datagrams of
+    transfers, item after item, the fetched-but-waiting [cur_dgram] first).
+    A tick sends every priority datagram, then as many paced datagrams as the
+    token bucket allows -- the number [n] is an input here (the bucket is
+    floating-point arithmetic on a clock; the harness feeds the observed
+    number).  Datagrams are abstract ([D]); the harness uses numbers. *)
+Section Pacing.
+  Variable D : Type.
+
+  Record pq : Type := mk_pq { q_pri : list D; q_paced : list D }.
+
+  Inductive pq_ev : Type :=
+  | EnqPri (ds : list D)      (* a non-transfer item enters the conversation queue *)
+  | EnqPaced (ds : list D)    (* the datagrams of a transfer enter it *)
+  | Tick (n : nat).           (* one pacing tick with tokens for [n] paced datagrams *)
+
+  (** emitted datagrams are tagged with their lane ([true] = priority) *)
+  Definition pq_step (st : pq) (e : pq_ev) : list (bool * D) * pq :=
+    match e with
+    | EnqPri ds => ([], mk_pq (q_pri st ++ ds) (q_paced st))
+    | EnqPaced ds => ([], mk_pq (q_pri st) (q_paced st ++ ds))
+    | Tick n => (map (pair true) (q_pri st) ++ map (pair false) (firstn n (q_paced st)),
+                 mk_pq [] (skipn n (q_paced st)))
+    end.
+
+  Fixpoint pq_run (st : pq) (evs : list pq_ev) : list (bool * D) * pq :=
+    match evs with
+    | [] => ([], st)
+    | e :: r =>
+        let '(out, st') := pq_step st e in
+        let '(outs, st'') := pq_run st' r in (out ++ outs, st'')
+    end.
+
+  (** everything enqueued on a lane, in order *)
+  Definition enq_of (lane : bool) (evs : list pq_ev) : list D :=
+    flat_map (fun e => match e with
+                       | EnqPri ds => if lane then ds else []
+                       | EnqPaced ds => if lane then [] else ds
+                       | Tick _ => []
+                       end) evs.
+
+  Definition lane_of (lane : bool) (out : list (bool * D)) : list D :=
+    map snd (filter (fun x => Bool.eqb (fst x) lane) out).
+End Pacing.
+
+(** events as (kind, numbers): 0 = priority item, 1 = transfer, 2 = tick [n] *)
+Definition pq_ev_of (e : N * list N) : pq_ev N :=
+  match fst e with
+  | 0 => EnqPri N (snd e)
+  | 1 => EnqPaced N (snd e)
+  | _ => Tick N (N.to_nat (hd 0 (snd e)))
+  end.
+
+Definition run_pq (evs : list (N * list N)) : list N * (list N * list N) :=
+  let '(out, st) := pq_run N (mk_pq N [] []) (map pq_ev_of evs) in
+  (map snd out, (q_pri N st, q_paced N st)).
